@@ -3,6 +3,8 @@
 Cases are JSON node trees (so that a replay file is self-contained):
   ['s', str] ['i', int] ['f', float.hex] ['b', hex] ['n'] ['B', 0|1] ['l', [nodes]] ['t', [nodes]]
   ['m', kind, [[keynode, valuenode], ...]]     kind: 0 dict, 1 OrderedDict, 2 MappingProxyType, 3 read-only Mapping subclass
+  ['x', kind, [[keynode, valuenode], ...]]   an object that is NOT a collections.abc.Mapping but has an items() method:
+                kind 0 ad-hoc class, 1 list subclass with items(), 2 email.message.Message, 3 xml.etree Element (2, 3: str keys/values)
   ['r', name]   a reference to case['defs'][name]: every reference to one name is THE SAME OBJECT (DAG-shaped arguments:
                 a mapping / list / str reachable twice or more, at one level or across depths); defs may refer to earlier defs
 ops:  mdp  {'secret': str|None (None = call without the argument), 'd': node, 'defs': {name: node} (optional),
@@ -33,6 +35,29 @@ class ROMapping(collections.abc.Mapping):
     def __iter__(self): return iter(self._d)
     def __len__(self): return len(self._d)
 
+class ItemsObj:
+    """not a Mapping: an object that merely has items()"""
+    def __init__(self, pairs): self._pairs = pairs
+    def items(self): return list(self._pairs)
+
+class ItemsList(list):
+    """not a Mapping: a list (of pairs) subclass that has items()"""
+    def items(self): return list(self)
+
+def _duck(kind, pairs):
+    if kind == 0: return ItemsObj(pairs)
+    if kind == 1: return ItemsList(pairs)
+    if kind == 2:
+        import email.message
+        m = email.message.Message()
+        for k, v in pairs: m[k] = v
+        return m
+    import xml.etree.ElementTree as ET
+    return ET.Element('e', dict(pairs))
+
+def is_duck(o):
+    return not isinstance(o, collections.abc.Mapping) and callable(getattr(o, 'items', None))
+
 KIND_NAMES = {0: 'dict', 1: 'OrderedDict', 2: 'MappingProxyType', 3: 'ROMapping'}
 
 def build(n, defs=None, memo=None, reg=None):
@@ -49,6 +74,8 @@ def build(n, defs=None, memo=None, reg=None):
     if t == 'B': return bool(n[1])
     if t == 'l': return [build(x, defs, memo) for x in n[1]]
     if t == 't': return tuple(build(x, defs, memo) for x in n[1])
+    if t == 'x':
+        return _duck(n[1], [(build(k, defs, memo), build(v, defs, memo)) for k, v in n[2]])
     if t == 'm':
         d = collections.OrderedDict() if n[1] == 1 else {}
         w = {0: d, 1: d, 2: types.MappingProxyType(d), 3: ROMapping(d)}[n[1]]
@@ -63,7 +90,7 @@ def expand(n, defs):
     t = n[0]
     if t == 'r': return expand(defs[n[1]], defs)
     if t in ('l', 't'): return [t, [expand(x, defs) for x in n[1]]]
-    if t == 'm': return ['m', n[1], [[expand(k, defs), expand(v, defs)] for k, v in n[2]]]
+    if t in ('m', 'x'): return [t, n[1], [[expand(k, defs), expand(v, defs)] for k, v in n[2]]]
     return n
 
 def kind_of(o):
@@ -86,6 +113,8 @@ def tag(o):
     if isinstance(o, list): return 'l[' + ','.join(tag(x) for x in o) + ']'
     if isinstance(o, collections.abc.Mapping):
         return 'm%d{' % kind_of(o) + ','.join(tag(k) + '=' + tag(v) for k, v in o.items()) + '}'
+    if is_duck(o):
+        return 'X%s{' % type(o).__name__ + ','.join(tag(k) + '=' + tag(v) for k, v in o.items()) + '}'
     return 'X' + type(o).__name__
 
 def canon_key(k):
@@ -577,7 +606,12 @@ def str_value(rng, keys):
     return rng.choice(ODD) + ' %s="%s" ' % (kk, pw) + rng.choice(ODD)
 
 def other_value(rng, keys, depth):
-    r = rng.randrange(11)
+    r = rng.randrange(12)
+    if r == 11:
+        kd = rng.randrange(4)
+        pairs = [[['s', rng.choice(keys)], ['s', 'hunter2']], [['s', 'user'], ['s', str_value(rng, keys)]]]
+        if kd < 2 and rng.random() < 0.5: pairs.append([['i', 3], ['m', 0, [[['s', rng.choice(keys)], ['i', 1]]]]])
+        return ['x', kd, pairs]
     if r == 0: return ['i', rng.choice([0, 1, -5, 10 ** 20])]
     if r == 1: return ['f', rng.choice([0.0, -0.0, 1.5, float('inf'), float('nan'), 1e-310]).hex()]
     if r == 2: return ['n']
@@ -619,6 +653,19 @@ def chain(rng, keys, depth, leafkey, leafval):
     for _ in range(depth - 1):
         n = ['m', rng.randrange(4), [[['s', rng.choice(keys) if rng.random() < 0.7 else 'nested'], n], [['s', 'user'], ['s', 'bob']]]]
     return n
+
+def duck_cases(rng, keys):
+    """non-Mappings that have items(): as the argument (TypeError) and as values (non-mapping values)"""
+    S = lambda x: ['s', x]
+    strpairs = [[S('password'), S('hunter2')], [S('user'), S("token = 'abc'")]]
+    anypairs = strpairs + [[['i', 1], ['m', 0, [[S('secret'), S('x')]]]], [S('n'), ['l', []]]]
+    ducks = [['x', 0, anypairs], ['x', 0, []], ['x', 1, anypairs], ['x', 1, []], ['x', 2, strpairs], ['x', 2, []], ['x', 3, strpairs], ['x', 3, []]]
+    for d in ducks:
+        yield {'d': d}
+        for kd in range(4):
+            yield {'d': ['m', kd, [[S('obj'), d], [S('Admin_Password'), d], [['i', 7], d], [S('user'), S('password=abc')]]]}
+        yield {'d': ['m', 0, [[S('n'), ['m', 3, [[S('token'), d], [S('inner'), d]]]], [S('l'), ['l', [d]]]]]}
+        yield {'defs': {'o': d}, 'd': ['m', 0, [[S('a'), ['r', 'o']], [S('secret'), ['r', 'o']], [S('n'), ['m', 1, [[S('b'), ['r', 'o']]]]]]]}
 
 def dag_boundary(rng, keys):
     """the same object referenced 2-3 times at one level and across depths: every mapping kind, empty and not;
@@ -682,6 +729,9 @@ def boundary_cases(rng, keys):
     for kd in range(4):
         yield {'op': 'mdp', 'secret': sec(), 'd': ['m', kd, []]}
         yield {'op': 'mdp', 'secret': None, 'd': ['m', kd, [[['s', 'password'], ['s', 'x']], [['s', 'k'], ['m', kd, [[['s', 'token'], ['i', 1]]]]]]]}
+    # objects with an items() method that are not Mappings
+    for c in duck_cases(rng, keys):
+        yield dict(c, op='mdp', secret=sec())
     # DAG-shaped arguments (one object reachable several times), also after earlier calls with other secrets
     for c in dag_boundary(rng, keys):
         yield dict(c, op='mdp', secret=sec())
@@ -745,7 +795,7 @@ def _gen_cases(rng, tier):
         elif r < 0.62:
             yield {'op': 'mdp', 'secret': secret, 'd': chain(rng, keys, rng.randint(1, 4), str_key(rng, keys), rng.choice(VALUE_SAMPLES))}
         elif r < 0.66:
-            yield {'op': 'mdp', 'secret': secret, 'd': rng.choice([['s', str_value(rng, keys)], other_value(rng, keys, 0)])}
+            yield {'op': 'mdp', 'secret': secret, 'd': rng.choice([['s', str_value(rng, keys)], other_value(rng, keys, 0), other_value(rng, keys, 0)])}
         else:
             yield {'op': 'key', 'k': str_key(rng, keys)}
 
@@ -758,7 +808,8 @@ RULE = ('every sanitize key (35 of the property reading + whatever the module li
         'under secret keys; random mappings depth <= 4 width <= 5 (thorough: 5% up to depth 6 width 8) over dict/OrderedDict/MappingProxyType/read-only Mapping, '
         'keys str (embedded keys, near-misses, Kelvin sign / dotted I / long s / sharp s / sigma / fullwidth / Cyrillic) or int/tuple/bytes/None/float, '
         'values str (12 secret-bearing shapes and plain), bytes, numbers incl. nan/inf, None, bool, lists/tuples (also holding dicts), mappings; '
-        'non-mapping arguments; secrets incl. empty, non-ASCII, default; DAG-shaped arguments (one mapping object — every kind, empty and not — or one list/str '
+        'non-mapping arguments incl. objects that merely have an items() method (ad-hoc class, list subclass, email Message, xml Element) — also as values under '
+        'ordinary and secret keys; secrets incl. empty, non-ASCII, default; DAG-shaped arguments (one mapping object — every kind, empty and not — or one list/str '
         'referenced 2-3 times at one level and across depths, shared mappings holding shared mappings); repeated calls on one argument object with '
         'different secrets before the observed call; every mdp case again through the identity-aware comparison (op mdph); self-containing (cyclic) '
         'mappings of every kind; key-test stream; distinct = distinct case JSON')
